@@ -418,6 +418,9 @@ class SymInt:
         return ENGINE.branch(self.nonzero())
 
     def __index__(self) -> int:
+        c = _as_const(z3.simplify(self.e))  # type: ignore
+        if c is not None:
+            return c
         return ENGINE.concretize(self.e, "index")  # type: ignore
 
     def __deepcopy__(self, memo: Any) -> Any:
@@ -427,11 +430,17 @@ class SymInt:
         return self
 
     def __repr__(self) -> str:
+        c = _as_const(z3.simplify(self.e))  # type: ignore
+        if c is not None:
+            return repr(c)
         return ENGINE.sentinel(self.e)  # type: ignore
 
     __str__ = __repr__
 
     def __format__(self, spec: str) -> str:
+        c = _as_const(z3.simplify(self.e))  # type: ignore
+        if c is not None:
+            return format(c, spec)
         return ENGINE.sentinel(self.e)  # type: ignore
 
     def __len__(self) -> int:
@@ -467,10 +476,10 @@ def _mkbool(e: Any) -> Any:
 
 
 def _mkz(e: Any) -> Any:
-    e = z3.simplify(e)
-    if z3.is_int_value(e):
-        return e.as_long()
-    return ZInt(e)
+    # Z-domain terms are never collapsed to Python ints, even when they fold to a numeral:
+    # every number that can reach a dict / set / functools.cache key must hash like a ZInt
+    # (constant 0) so that lookups compare with `==` instead of missing by hash.
+    return ZInt(z3.simplify(e))
 
 
 def modelled(exc: BaseException) -> BaseException:
@@ -726,6 +735,10 @@ class ZInt(SymInt):
         return ZInt(z3.Int(name))
 
     @staticmethod
+    def const(v: int) -> "ZInt":
+        return ZInt(z3.IntVal(v))
+
+    @staticmethod
     def from_bool(b: SymBool) -> "ZInt":
         return ZInt(z3.If(b.e, z3.IntVal(1), z3.IntVal(0)))
 
@@ -872,15 +885,19 @@ class ZInt(SymInt):
         # hash to 0 -- see the int-literal container transform in the loader).
         return 0
 
+    _bl_n = 0
+
     def bit_length(self) -> Any:
-        # exact for |x| < 2^80, guarded
+        # exact for |x| < 2^80; above that an over-approximation: a fresh integer >= 81
+        # (sound for proving; a spurious model would fail its native replay -> inconclusive)
         a = z3.If(self.e < 0, -self.e, self.e)
-        if ENGINE.implied(a < 2 ** 80) is not True:
-            raise Unsupported("bit_length of a value that may exceed 2^80")
-        e = z3.IntVal(80)
-        for k in range(79, -1, -1):
+        ZInt._bl_n += 1
+        big = z3.Int(f"bitlen!{ZInt._bl_n}")
+        ENGINE.assume(big >= 81)
+        e = big
+        for k in range(80, -1, -1):
             e = z3.If(a < 2 ** k, z3.IntVal(k), e)
-        return _mkz((e))
+        return ZInt(z3.simplify(e))
 
 
 _DOMAIN: Any = BVInt
